@@ -18,7 +18,8 @@ Init == [i |-> 0, viol |-> {},
          peer  |-> [c \in CIds |-> ""],
          dir   |-> [c \in CIds |-> ""],
          cand  |-> [c \in CIds |-> ""],
-         gone  |-> [c \in CIds |-> FALSE]]
+         gone  |-> [c \in CIds |-> FALSE],
+         stalled |-> [c \in CIds |-> FALSE]]   \* the peer has stopped reading: nothing the node sends can be observed any more
 
 IsDwr(m) == m.cmd = "DW" /\ m.req
 IsDwa(m) == m.cmd = "DW" /\ ~m.req
@@ -46,7 +47,7 @@ StepN(M, st) ==
          : c \in CIds}
       \* ---- DWRs that should have been sent
       vMissing == {"dwr_not_sent_after_idle_timeout" : c \in {x \in CIds :
-                     inSvc(x) /\ ~M0.wait[x] /\ ~closed(x) /\ dwrs(x) = 0 /\ ~((feed \/ IsRx(st)) /\ x = st.act.c) /\
+                     inSvc(x) /\ ~M0.wait[x] /\ ~closed(x) /\ dwrs(x) = 0 /\ ~((feed \/ IsRx(st)) /\ x = st.act.c) /\ ~M0.stalled[x] /\
                      CstOf(st.snap, x) \in READY /\ now >= M0.lastRx[x] + idle(x) + MCfg.node.wakeup + 1}}
       \* ---- DWA handling
       vDwa == IF feed /\ inSvc(c0) /\ M0.wait[c0] /\ fedDwa /\ ~closed(c0) /\ CstOf(st.snap, c0) = "WAITDWA" /\ dwrs(c0) = 0
@@ -61,10 +62,15 @@ StepN(M, st) ==
                      M0.peer[x] \in MPeers /\ st.snap.peers[M0.peer[x]].conn = 0 /\ st.snap.peers[M0.peer[x]].reason \notin {R_DWATO, 32} /\
                      now - M0.dwrAt[x] > dwaT(x)}}
       \* ---- received DWR answered 2001 in either ready sub-state
-      vDwr == IF feed /\ inSvc(c0) /\ ~closed(c0) /\ Len(ms) = 1 /\ IsDwr(ms[1]) /\ ms[1].oh # ""
+      vDwr == IF feed /\ inSvc(c0) /\ ~closed(c0) /\ ~M0.stalled[c0] /\ Len(ms) = 1 /\ IsDwr(ms[1]) /\ ms[1].oh # ""
                  /\ ~\E j \in 1..Len(out) : out[j].ev = "tx" /\ out[j].c = c0 /\ IsDwa(out[j].m) /\ out[j].m.rc = 2001 /\ Key(out[j].m) = Key(ms[1])
               THEN {"dwr_not_answered_2001"} ELSE {}
-      sigs == vSent \cup vMissing \cup vDwa \cup vWaitSt \cup vTo \cup vEarly \cup vReason \cup vDwr
+      \* a connection whose peer neither reads nor sends: the watchdog request cannot be seen on the wire, but idle timeout +
+      \* DWA timeout (each judged at a timer check) after the last received byte the connection must have been closed
+      vStalled == {"silent_stalled_connection_not_closed" : c \in {x \in CIds :
+                     inSvc(x) /\ M0.stalled[x] /\ ~closed(x) /\ ~((feed \/ IsRx(st)) /\ x = st.act.c) /\
+                     now >= M0.lastRx[x] + idle(x) + dwaT(x) + 2 * (MCfg.node.wakeup + 1)}}
+      sigs == vSent \cup vMissing \cup vDwa \cup vWaitSt \cup vTo \cup vEarly \cup vReason \cup vDwr \cup vStalled
       M1 == [M0 EXCEPT !.viol = @ \cup {[sig |-> s, at |-> M0.i] : s \in sigs}]
       \* ---- state update
       succIn(c) == \E j \in 1..Len(out) : out[j].ev = "tx" /\ out[j].c = c /\ out[j].m.cmd = "CE" /\ ~out[j].m.req /\ out[j].m.rc = 2001
@@ -80,6 +86,7 @@ StepN(M, st) ==
                !.wait = [c \in CIds |-> IF dwrs(c) >= 1 /\ c = c0 /\ fedDwa THEN CstOf(st.snap, c) = "WAITDWA"
                                         ELSE IF dwrs(c) >= 1 THEN TRUE ELSE IF c = c0 /\ fedDwa THEN FALSE ELSE @[c]],
                !.dwrAt = [c \in CIds |-> IF dwrs(c) >= 1 THEN now ELSE @[c]],
+               !.stalled = [c \in CIds |-> @[c] \/ (st.act.a = "stall" /\ st.act.c = c)],
                !.gone = [c \in CIds |-> @[c] \/ closed(c) \/ dprFed(c) \/ (st.act.a \in {"peer_close", "peer_reset"} /\ st.act.c = c)]]
       M3 == [M2 EXCEPT !.rdy = [c \in CIds |-> @[c] \/ (M0.dir[c] = "in" /\ succIn(c)) \/ succOut(c)],
                        !.peer = [c \in CIds |-> IF M0.dir[c] = "in" /\ succIn(c) /\ @[c] = "" THEN M2.cand[c] ELSE @[c]]]
